@@ -114,7 +114,7 @@ func TestVerif_C05_h2emit(t *testing.T) {
 		"requests over {no order, header order, pseudo-header order, both} x {plain, cookies (split into crumbs), 20..64 headers, trailers announced (commaSeparatedTrailers), body, no body, HEAD, CONNECT, CONNECT with a Proto (ignored by HTTP/2)}; generator of C01/C16 for the rest; 1..6 consecutive requests share one ClientConn (HPACK encoder with dynamic table) and three in-order peers; peer header-list limit sometimes small (refusal before anything is encoded); every accepted block is written by cc.writeHeaders with max frame size from {1,2,3,5,6,7, len-1, len, len+1, 100, 16384, random}, HEADERS priority zero / non-zero (5 octets count against the limit; below 5 with a priority = Go panic), END_STREAM on/off; oracle: RFC 9113 8.2/8.3.1 section rule + C01 multiset/order oracle + fragmentation rule read through x/net's framer + ReadMetaHeaders of both framers; non-trivial = block produced / frames written")
 	r := s.Rand()
 	hs := newC05hist(s)
-	n := verifh.N(2600, 60000)
+	n := verifh.N(2600, 40000)
 	var conn *c05emitConn
 	left := 0
 	for c := 0; c < n; c++ {
